@@ -58,8 +58,9 @@ File(t, i) == /\ phase = "files" /\ i \in 1..Len(Index) /\ i \notin done /\ Regu
                    /\ log' = Append(log, [i |-> i, ok |-> r.ok, err |-> r.err])
               /\ done' = done \cup {i} /\ last' = [last EXCEPT ![t] = i]
               /\ UNCHANGED <<fs0, sel, opt, phase>>
-\* symlinks are created by the calling thread's own context: with one worker that is the stack that wrote the files
-LinksStack == IF Cardinality(Threads) = 1 THEN CHOOSE t \in Threads : TRUE ELSE "links"
+\* symlinks are created by the calling thread with a path stack of their own, also when a single worker wrote the files
+\* (the stack that wrote them would still take a directory of the first pass for granted after a symlink replaced it)
+LinksStack == "links"
 ToLinks == /\ phase = "files" /\ \A i \in 1..Len(Index) : Regular(i) => i \in done
            /\ phase' = "links" /\ UNCHANGED <<fs, fs0, sel, opt, done, prev, last, log>>
 Link == /\ phase = "links" /\ \E i \in 1..Len(Index) : i \notin done
